@@ -506,12 +506,11 @@ def stage_selection(chk, cases):
         nontrivial = isinstance(i_all, list) and isinstance(i_off, list) and 0 < len(i_off) < len(i_all)
         chk.seen(canon, nontrivial)
         chk.count("selection:" + (case.get("variant") or "sdl") + (":func" if has_func else ""))
+        # (no early exit on a disagreement: the property itself is still checked on the implementation below)
         if kind_of(i_off) != mo:
             chk.disagree("get_all_operations vs Model_C20.offered_raw", canon, i_off, mo)
-            continue
         if kind_of(i_all) != ma:
             chk.disagree("get_all_operations (no filters) vs Model_C20.offered_raw", canon, i_all, ma)
-            continue
         if kind_of(i_stat) != ms:
             chk.disagree("_measure_statistic vs Model_C20.measure", canon, i_stat, ms)
         if m_nofunc != (not has_func):
